@@ -159,12 +159,14 @@ pub fn braille_mathml(mathml: Element, nav_node_id: &str) -> Result<(String, usi
         if [Some(&'⠰'), Some(&'⠸'), Some(&'⠨')].contains(&prefix.peek()) {   // English, German, Greek
             n_chars += 1;
         } else if prefix.peek() == Some(&'⠈') {  
+            prefix.next();
             let ch = prefix.next();                              // Russian/Greek Variant
             if ch == Some('⠈') || ch == Some('⠨') {
                 n_chars += 2;
             }
         } else if prefix.peek() == Some(&'⠠')  { // Hebrew 
-            let ch = prefix.next();                              // Russian/Greek Variant
+            prefix.next();
+            let ch = prefix.next();                              // second char of the indicator
             if ch == Some('⠠') {
                 n_chars += 2;
             }
